@@ -53,6 +53,21 @@ CHECKS = {
          "with different outcome tables must end like a fresh run of the last table.",
          "Trusts vlib/refrun.py; under continue_after_failed_step both admissible readings after an undefined/pending/interrupted step are accepted; no random tail beyond the bound.",
          "DESIGN.md section 5, C02"),
+
+ "C09": ("exploration",
+         "exhaustive enumeration of tag placements over all levels x tag expressions in both dialects x switches on the real runner, executed set compared with an independent tag evaluator over effective tags",
+         "Base trees covering feature / rule / scenario / outline / examples-block / parametrised-tag levels; every assignment of {none,t,u} to the tag slots with <=2 (thorough <=3) non-empty slots x 10 expressions "
+         "(v2 and v1 dialects, negation, wildcard) x show_skipped x dry-run, plus one failing step at every position; the set of executed scenarios (call log, scenario/step hooks), the skipped statuses of "
+         "de-selected scenarios and their steps, and the skipped/not-skipped status of every container are compared with the independent evaluator.",
+         "Trusts vlib/ref_tags.py (evaluator) and vlib/refrun.py; feature/rule hooks for a container that matches by its own tags but has no selected scenario are not constrained (statement silent).",
+         "DESIGN.md section 5, C09"),
+ "C12": ("fault_enumeration",
+         "fault-point enumeration: every hook invocation of the fault-free run (and, thorough, every pair) raises, on 48 tagged feature shapes x 3 variations, complete hook log / statuses / call log compared with a reference interpreter and with the real fault-free run",
+         "For each of 48 shapes with a rule, an outline and tags at every level, and each of {default, --stop, --tags} the k-th hook call raises (Exception subclass / AssertionError) for EVERY k; thorough adds all pairs. "
+         "Checked: run() returns, verdict failed, hook log equals the nested reference grammar with every started before-phase closed by its after hook, the element concerned is hook_error and a failed before-hook "
+         "keeps the body from running, unrelated elements keep status and step calls of the real fault-free run, before_all aborts, --stop stops; no hooks in dry-run or for de-selected scenarios.",
+         "Trusts vlib/refrun.py hook grammar; KeyboardInterrupt in hooks is out of the quantifier; order among after_tag hooks of one element compared as multiset.",
+         "DESIGN.md section 5, C12"),
 }
 PENDING_REASON = "check not built yet in this round (planned, see DESIGN.md section 5); nothing is claimed for it so far"
 
